@@ -489,4 +489,91 @@ def n7_grouping(ctx):
             ctx.finding('N7', 'separators/thousands-guard', 'the thousands separator is pushed under %s' % conds[:100], site=th[0][1]['loc'])
 
 
-RULES = [('N1', n1_provenance), ('N2', n2_wiring), ('N3', n3_setters), ('N4', n4_sign), ('N5', n5_casts), ('N6', n6_money), ('N7', n7_grouping)]
+def n8_zero_fraction(ctx):
+    """N8 the zero-fraction decision: fract_information declares the fraction zero (returns the constant 0) only under an
+    exact comparison of the fraction with 0.0 - a threshold comparison would drop small non-zero fractions that the
+    configured digit count still prints; format_number's omission test reads that result"""
+    ctx.rule('N8', 'zero-fraction test is exact', floor=2)
+    b = ctx.facts.one(r'^formatter::fract_information$')
+    ctx.fn(b)
+    n = 0
+    for a, conds in alternatives(b, b.ret_expr()):
+        a2 = strip(a)
+        if not (a2[0] == 'const' and a2[2] == 0):
+            continue
+        n += 1
+        cs = [cond_str(d, v) for d, v in conds]
+        exact = [c for c in cs if re.fullmatch(r'\(f64::fract\(f64::abs\(f\)\) Eq 0(\.0)?\)!=\[0\]', c) or re.fullmatch(r'\(0(\.0)? Eq f64::fract\(f64::abs\(f\)\)\)!=\[0\]', c)
+                 or re.fullmatch(r'\(f64::fract\(f64::abs\(f\)\) Ne 0(\.0)?\)=\[0\]', c)]
+        if exact and len(cs) == 1:
+            ctx.ok('N8', 'fract_information returns 0 only when fract(|f|) == 0.0', 'guard-dom', site=b.loc)
+        else:
+            ctx.finding('N8', 'fract_information/zero-under-threshold', 'fract_information reports a zero fraction under %s; only an exact `== 0.0` may do that (a fraction below a tolerance still has printed digits when decimal_digits is large enough)' % cs, site=b.loc)
+    if n == 0:
+        ctx.finding('N8', 'fract_information/no-zero-result', 'fract_information no longer has an explicit zero result for a zero fraction', site=b.loc)
+    fb = ctx.facts.one(FN)
+    # the omission test in format_number: push of the decimal separator guarded by (fract_part > 0 || !remove_fract_if_zero)
+    de = [(bid, t) for bid, t in fb.calls(r'String::push_str$') if render(fb.expr(t['args'][1])) == 'decimal_separator']
+    if len(de) != 1:
+        raise AnchorLost('format_number: decimal separator push not found')
+    # decision table of the push over the three predicates involved (walk of the CFG slice with each truth assignment)
+    import itertools
+    preds = {}
+    start = None
+    for i in sorted(fb.normal_blocks):
+        for st in fb.blocks[i]['stmts']:
+            if st['k'] == 'assign' and st['rv'] == 'binop' and not st['lhs']['proj']:
+                l, r = render(fb.sexpr(st['ops'][0])).replace('$', ''), render(fb.sexpr(st['ops'][1])).replace('$', '')
+                if st['op'] == 'Gt' and l == 'fract_part' and r == '0':
+                    preds[st['lhs']['local']] = ('A', False)
+                    start = i if start is None else start
+                elif st['op'] in ('Ne', 'Eq') and {l, r} == {'trunc_size', 'String::len(formated_number)'}:
+                    preds[st['lhs']['local']] = ('N', st['op'] == 'Eq')
+            if st['k'] == 'assign' and st['rv'] == 'unop' and st.get('op') == 'Not' and render(fb.sexpr(st['ops'][0])).lstrip('$') == 'remove_fract_if_zero':
+                preds[st['lhs']['local']] = ('R', True)
+    if start is None or not any(v[0] == 'N' for v in preds.values()):
+        raise AnchorLost('format_number: the predicates of the fraction test (fract_part > 0, trunc_size != len) were not found')
+
+    def reaches(truth):
+        cur, seen = start, set()
+        while cur not in seen:
+            seen.add(cur)
+            if cur == de[0][0]:
+                return True
+            t = fb.blocks[cur]['term']
+            if t['k'] == 'switch':
+                p_ = t['discr'].get('copy') or t['discr'].get('move')
+                val = None
+                if p_ and not p_['proj']:
+                    if p_['local'] in preds:
+                        nm, neg = preds[p_['local']]
+                        val = int(truth[nm] != neg)
+                    elif render(fb.sexpr(t['discr'])).lstrip('$') == 'remove_fract_if_zero':
+                        val = int(truth['R'])
+                if val is None:
+                    return None
+                nxt = t['otherwise']
+                for vv, tgt in t['vals']:
+                    if vv == val:
+                        nxt = tgt
+                cur = nxt
+            elif t['k'] in ('goto', 'call', 'drop', 'assert'):
+                cur = t['target']
+            else:
+                return False
+        return False
+    wrong = []
+    for A, R, N in itertools.product((False, True), repeat=3):
+        got = reaches({'A': A, 'R': R, 'N': N})
+        want = (A or not R) and N
+        if got is None or got != want:
+            wrong.append((A, R, N, got, want))
+    if not wrong:
+        ctx.ok('N8', 'the fraction is printed iff (fract_part > 0 or zero fractions are kept) and there is a fraction (8 truth assignments)', 'table', site=de[0][1]['loc'])
+    else:
+        A, R, N, got, want = wrong[0]
+        ctx.finding('N8', 'format_number/omission-test', 'with fract_part>0=%s, remove_fract_if_zero=%s, has-fraction=%s the fraction is %s, expected %s (%d of 8 assignments differ)' % (
+            A, R, N, {True: 'printed', False: 'omitted', None: 'undetermined'}[got], 'printed' if want else 'omitted', len(wrong)), site=de[0][1]['loc'])
+
+
+RULES = [('N8', n8_zero_fraction), ('N1', n1_provenance), ('N2', n2_wiring), ('N3', n3_setters), ('N4', n4_sign), ('N5', n5_casts), ('N6', n6_money), ('N7', n7_grouping)]
